@@ -17,7 +17,7 @@
                 their stdin parts, [run]) maps such texts to such texts and prints the same at every run, every concat has at least one part. *)
 From Coq Require Import NArith List Bool.
 From Exactly Require Import Lib.Text Lib.TextLemmas Model.StrSrc Spec.C14 Proofs.Utf8 Proofs.StrSrcSpool Proofs.StrSrcViews
-  Proofs.StrSrcMatch.
+  Proofs.StrSrcMatch Proofs.StrSrcStrip.
 Import ListNotations.
 Local Open Scope N_scope.
 
@@ -56,6 +56,28 @@ Theorem C14_replace_lines_are_the_lines_of_the_text :
   forall (sub : text -> text) (ls : list text), lf_replace sub ls = lines_lf (concat (map sub ls)).
 Proof. exact lf_replace_spec. Qed.
 Print Assumptions C14_replace_lines_are_the_lines_of_the_text.
+
+(** The three [strip] transformers (strip, strip -trailing-space, strip -trailing-new-lines) are admitted line
+    transformations: the hypothesis [atom_ok (TStrip v)] of the partial theorems below holds for every variant, so these
+    theorems apply to every chain containing them. *)
+Theorem C14_strip_admissible : forall v : strip_variant, atom_ok (TStrip v).
+Proof. exact lf_ok_strip_of. Qed.
+Print Assumptions C14_strip_admissible.
+
+(** The lines handed out by a [strip] transformer are the lines of the stripped text - no empty element, joined = the
+    text - for every admitted text (also texts of only new-lines or blanks: the statement seeded change C14-m13 violated). *)
+Theorem C14_strip_lines_are_the_lines_of_the_text :
+  forall (v : strip_variant) (t : text), text_ok t = true ->
+    lf_strip_of v (lines_lf t) = lines_lf (concat (lf_strip_of v (lines_lf t))) /\
+    ~ In [] (lf_strip_of v (lines_lf t)).
+Proof. exact strip_lines_are_lines. Qed.
+Print Assumptions C14_strip_lines_are_the_lines_of_the_text.
+
+Example C14_strip_of_all_newline_texts :
+  map (fun v => map (fun t => lf_strip_of v (lines_lf t)) [[10]; [10; 10]; [10; 10; 10]; [32; 10; 10]])
+      [StripBoth; StripTrailingSpace; StripTrailingNewLines]
+  = [[[]; []; []; []]; [[]; []; []; []]; [[]; []; []; [[32]]]].
+Proof. vm_compute. reflexivity. Qed.
 
 (** MAIN THEOREM (partial: under the guard [leaves_ok]; without it the statement is refuted below -
     known findings KF-C14-1, KF-C14-2).
